@@ -170,7 +170,9 @@ class Check(PropertyCheck):
                     elif e[0] == "rule" and suffix == "p":
                         st = [c for c in root.children if c.tag == "style"]
                         want = ".svgbob .%s{ %s }" % (e[1], "".join(c for c in e[2] if xml_ok(c)))
-                        # XML line-end normalisation: a CR read back as LF would be a loss
+                        # the property asks for literal read-back of *text elements*; in the style sheet
+                        # an XML parser normalises line ends (CR, CRLF -> LF), which C17 relies on
+                        want = want.replace("\r\n", "\n").replace("\r", "\n")
                         if not st or want not in st[0].text:
                             bad = ("legend rule not read back", want)
                 if bad:
